@@ -1,6 +1,6 @@
-(* Property C12 — close() is final and idempotent.
-   Only statements here; proofs are in CacheLocal.v. *)
-From StrettoModel Require Import Base Metrics Policy Ttl Store Cache CacheProofs CacheLocal.
+(* Property C12 — close() is final, idempotent, and leaves no worker behind.
+   Only statements here; proofs are in CacheLocal.v and CacheClose.v. *)
+From StrettoModel Require Import Base Metrics Sketch Bloom TinyLFU Policy Ttl Store Cache CacheProofs CacheLocal CacheInv CacheClose.
 Open Scope N_scope.
 
 (* Once the closed flag is set (close() publishes it first), in ANY state: insert returns false,
@@ -18,3 +18,41 @@ Theorem C12_closed_is_absorbing :
   end.
 Proof. exact closed_is_absorbing. Qed.
 Print Assumptions C12_closed_is_absorbing.
+
+(* Final: no step of any actor — client, processor, policy worker, clock, ticker — re-opens the cache
+   or the policy, or brings a worker that has left its loop back. *)
+Theorem C12_closed_is_final :
+  forall c st l st' o,
+  cstep c st l = StepOk st' o ->
+  (s_closed st = true -> s_closed st' = true) /\ (s_pol_closed st = true -> s_pol_closed st' = true) /\
+  (s_pc st = PExited -> s_pc st' = PExited) /\ (s_wpc st = WExited -> s_wpc st' = WExited).
+Proof. exact closed_is_final. Qed.
+Print Assumptions C12_closed_is_final.
+
+(* No worker left behind, either flavour, every history and schedule (closers racing each other and
+   other operations included): in every reachable state, a closer that is about to publish the
+   policy's closed flag and return Ok — and every state in which that flag is set — has a cache
+   processor that has left its loop or holds its stop message, and a policy worker likewise (async:
+   the message sits in the stop channel, the stop arm stays ready until taken). *)
+Theorem C12_close_leaves_no_worker_behind :
+  forall c mc t now st a,
+  reach c (cinit c mc t now) st -> (client_of st a = KPolCloseAfterStop \/ s_pol_closed st = true) ->
+  (s_pc st = PExited \/ 0 < s_stop_msgs st) /\ (s_wpc st = WExited \/ 0 < s_pol_stop_msgs st).
+Proof. exact close_leaves_no_worker_behind. Qed.
+Print Assumptions C12_close_leaves_no_worker_behind.
+
+(* Sync flavour (both handshakes are rendezvous): when close() returns Ok the processor and the
+   policy worker HAVE both left their loops. *)
+Theorem C12_sync_close_returns_after_workers_exit :
+  forall c mc t now st a,
+  c_async c = false -> reach c (cinit c mc t now) st ->
+  (client_of st a = KPolCloseAfterStop \/ s_pol_closed st = true) ->
+  s_pc st = PExited /\ s_wpc st = WExited.
+Proof. exact sync_close_returns_after_workers_exit. Qed.
+Print Assumptions C12_sync_close_returns_after_workers_exit.
+
+(* The invariant behind both is inductive over every step. *)
+Theorem C12_invariant_is_inductive :
+  forall c st l st' o, CloseInv st -> cstep c st l = StepOk st' o -> CloseInv st'.
+Proof. exact CloseInv_step. Qed.
+Print Assumptions C12_invariant_is_inductive.
